@@ -15,7 +15,7 @@ import json
 from mc.checks import c06
 from mc.drivers import opterms as O
 from mc.drivers import terms as T
-from mc.engine.core import Collector, Result, Violation, pmap
+from mc.engine.core import Collector, Result, Violation, jstrict, pmap
 
 norm = T.norm_type_json
 
@@ -141,7 +141,7 @@ def check_type(spec):
         return fails
     y = r[1]
     doc2 = _try(lambda: enc_type(y))
-    if doc2 != ("ok", doc):
+    if jstrict(doc2) != jstrict(("ok", doc)):
         bad("re-encode", f"enc(dec(enc(x))) = {doc2[1]} != enc(x) = {doc}")
     if not poly:
         b1, b2 = _try(lambda: x.type_bound().value), _try(lambda: y.type_bound().value)
@@ -191,7 +191,7 @@ def check_param(spec):
     r = _try(lambda: dec_param(doc))
     if r[0] != "ok":
         return fails + [(f"param:{spec[0]}:decode-raised", f"{spec}: {r[1]}")]
-    if enc_param(r[1]) != doc:
+    if jstrict(enc_param(r[1])) != jstrict(doc):
         fails.append((f"param:{spec[0]}:re-encode", f"{spec}: {enc_param(r[1])} != {doc}"))
     if r[1] != p:
         fails.append((f"param:{spec[0]}:not-equal", f"{spec}: decoded {r[1]!r} != {p!r}"))
@@ -207,7 +207,7 @@ def check_arg(spec):
     r = _try(lambda: dec_arg(doc))
     if r[0] != "ok":
         return fails + [(f"arg:{spec[0]}:decode-raised", f"{spec}: {r[1]}")]
-    if enc_arg(r[1]) != doc:
+    if jstrict(enc_arg(r[1])) != jstrict(doc):
         fails.append((f"arg:{spec[0]}:re-encode", f"{spec}: {enc_arg(r[1])} != {doc}"))
     if r[1] != a:
         fails.append((f"arg:{spec[0]}:not-equal", f"{spec}: decoded {r[1]!r} != {a!r}"))
@@ -231,7 +231,7 @@ def check_value(spec):
         return [(f"value:{k}:encode-raised", f"{spec}: {type(e).__name__}: {e}")]
     try:
         v1 = O.build_value(spec, one_shot=True)
-        if enc_value(v1) != doc:
+        if jstrict(enc_value(v1)) != jstrict(doc):
             bad("one-shot-iterables", "the same value built from one-shot iterators encodes differently")
     except Exception as e:  # noqa: BLE001
         bad("one-shot-iterables:raised", f"{type(e).__name__}: {e}")
@@ -240,7 +240,7 @@ def check_value(spec):
         return [(f"value:{k}:decode-raised", f"{spec}: decoding raised {r[1]}")]
     w = r[1]
     d2 = _try(lambda: enc_value(w))
-    if d2 != ("ok", doc):
+    if jstrict(d2) != jstrict(("ok", doc)):
         bad("re-encode", f"enc(dec(enc(v))) differs: {str(d2[1])[:300]} vs {str(doc)[:300]}")
     t1, t2 = _try(lambda: norm(enc_type(v.type_()))), _try(lambda: norm(enc_type(w.type_())))
     if t1 != t2:
@@ -334,7 +334,7 @@ def check_op(spec):
         return fails
     op2 = r[1]
     d2 = _try(lambda: enc_op(op2))
-    if d2 != ("ok", doc):
+    if jstrict(d2) != jstrict(("ok", doc)):
         changed = sorted(key for key in set(doc) | set(d2[1] if d2[0] == "ok" else {}) if d2[0] != "ok" or doc.get(key) != d2[1].get(key))
         bad(f"re-encode:{'+'.join(changed)}", f"enc(dec(enc(op))) = {d2[1]} != enc(op) = {doc}")
     # derived facts of the decoded op against R3
@@ -432,12 +432,12 @@ def check_foreign_op(spec, meta):
         from mc.checks.c14 import _strip_fn
 
         a, b = _strip_fn(a), _strip_fn(b)
-    if a != b:
-        diff = sorted(key for key in set(a) | set(b) if a.get(key) != b.get(key))
+    if jstrict(a) != jstrict(b):
+        diff = sorted(key for key in set(a) | set(b) if jstrict(a.get(key)) != jstrict(b.get(key)))
         fails.append((f"foreign:{k}:field:{'+'.join(diff)}", f"{spec}: node re-saved as {out['nodes'][1]}, document had {doc['nodes'][1]}"))
     md = out.get("metadata") or []
     got_meta = [(m or None) for m in md] + [None] * (2 - len(md))
-    if got_meta[:2] != [{"name": "root-meta"}, meta or None]:
+    if jstrict(got_meta[:2]) != jstrict([{"name": "root-meta"}, meta or None]):
         fails.append(("foreign:metadata", f"{spec}: metadata {doc['metadata']} re-saved as {out.get('metadata')}"))
     return fails
 
@@ -473,7 +473,7 @@ def check_foreign_order(i):
     if got_value != [(1, 0, 2, 0)]:
         fails.append(("foreign:order-doc:value-edges", f"doc {i}: value edges {got_value}"))
     md = out.get("metadata") or []
-    if [m or None for m in md] != doc["metadata"]:
+    if jstrict([m or None for m in md]) != jstrict(doc["metadata"]):
         fails.append(("foreign:metadata", f"doc {i}: metadata re-saved as {md}"))
     # the loaded Hugr reports those edges as order links
     h = Hugr.load_json(json.dumps(doc))
@@ -548,7 +548,7 @@ def items_for(tier):
     items += [("value", v) for v in O.value_specs(tier)]
     ops_ = O.op_specs(tier)
     items += [("op", o) for o in ops_]
-    metas = [None, {"k": [1, "a", None], "é": {"n": 1.5}}]
+    metas = [None, {"k": [1, "a", None], "é": {"n": 1.5}}, {"t": True, "one": 1, "f1": 1.0, "z": 0, "ff": False, "f0": 0.0, "neg": -0.0, "": "", "big": 2**63}]
     # one foreign document per op (reduced: every op kind x up to 40 variants, all with metadata)
     per_kind = {}
     for o in ops_:
@@ -558,7 +558,7 @@ def items_for(tier):
         for i, o in enumerate(lst[::step]):
             if "FuncV" in repr(o):
                 continue  # the reference encoder has no document for embedded function bodies
-            items.append(("foreign-op", [o, metas[i % 2]]))
+            items.append(("foreign-op", [o, metas[i % 3]]))
     items += [("foreign-order", i) for i in range(len(_order_docs()))]
     repo = os.environ.get("HUGR_REPO", "/repo")
     for p in sorted(glob.glob(f"{repo}/resources/test/*.json")):
